@@ -7,7 +7,9 @@ import (
 	"go/constant"
 	"go/token"
 	"go/types"
+	"regexp"
 	"sort"
+	"strconv"
 	"strings"
 
 	"golang.org/x/tools/go/ssa"
@@ -1095,6 +1097,57 @@ func round7(w *World, r *Report, prop string) {
 		r.Rule("R13.15", "the default that is validated is the default the type reports: validateDefault hands the first result of t.Default() to t.Validate unchanged", 1)
 		r.guard("R13.15", func() { r7DefaultValidatedAsIs(w, r, "R13.15") })
 	case "C14":
+		r.Rule("R14.15", "no written status escapes the weaken-only test: in getStatus every exit is reached either without a status statement or after the comparison of the written status with the inherited one (no value — not `current` either — is returned before it)", 1)
+		r.guard("R14.15", func() {
+			f := w.SSAFunc(w.Method("compile", "Compiler", "getStatus"))
+			if f == nil || len(f.Params) != 3 {
+				panic(undecided{"Compiler.getStatus"})
+			}
+			sym := NewSym(w)
+			sym.Expand = false
+			var stmt ssa.Value
+			var tests []*ssa.BasicBlock
+			for _, b := range f.Blocks {
+				for _, in := range b.Instrs {
+					switch x := in.(type) {
+					case *ssa.Call:
+						if x.Call.IsInvoke() && nm(x.Call.Method) == "ChildByType" {
+							stmt = x
+						}
+					case *ssa.BinOp:
+						if (x.Op == token.LSS || x.Op == token.GTR || x.Op == token.LEQ || x.Op == token.GEQ) && (x.X == ssa.Value(f.Params[2]) || x.Y == ssa.Value(f.Params[2])) {
+							tests = append(tests, b)
+						}
+					}
+				}
+			}
+			why := ""
+			if stmt == nil || len(tests) == 0 {
+				why = "the written status is not compared with the inherited one"
+			}
+			for _, b := range f.Blocks {
+				if _, isRet := b.Instrs[len(b.Instrs)-1].(*ssa.Return); !isRet || why != "" {
+					continue
+				}
+				through := false
+				for _, tb := range tests {
+					through = through || tb == b || tb.Dominates(b)
+				}
+				if through {
+					continue
+				}
+				msg := pcImplies(sym.PathCond(f.Blocks[0], b, nil), func(a *pcAtom) string {
+					if a.op == token.EQL && a.x != nil && a.y != nil && ((a.x == stmt && isNilConst(a.y)) || (a.y == stmt && isNilConst(a.x))) {
+						return "nostmt"
+					}
+					return ""
+				}, func(env map[string]bool) bool { return env["nostmt"] })
+				if msg != "" {
+					why = "an exit is reached with a status statement present and before the comparison (" + msg + ")"
+				}
+			}
+			r.Check(why == "", "R14.15", "getStatus compares every written status", f.Pos(), "exit ⇒ no status statement ∨ the comparison was made", why+": a node that writes that status under a deprecated or obsolete ancestor is accepted (status may only weaken downwards)")
+		})
 		r.Rule("R14.14", "deviate replace replaces: deviateReplace.propertyAction returns its error whenever the target has no statement of that kind", 1)
 		r.guard("R14.14", func() { r7ReplaceNeedsExisting(w, r, "R14.14") })
 	case "C15":
@@ -1105,11 +1158,86 @@ func round7(w *World, r *Report, prop string) {
 		r.Rule("R15.15", "a prefix is resolved as it is written: the LexName of the leafref and of the common lexer hand the prefix text to the prefix map without changing its case or trimming it", 2)
 		r.guard("R15.15", func() { r7PrefixAsWritten(w, r, "R15.15") })
 	case "C16":
+		r.Rule("R16.20", "XSD block escapes are translated to the block's code points: every entry \\p{IsX} of parse.patternReplacements maps to the character class of the Unicode block X as XSD names it (BasicLatin = U+0000..U+007F)", 1)
+		r.guard("R16.20", func() {
+			blocks := map[string][2]int64{"BasicLatin": {0x0000, 0x007F}, "Latin-1Supplement": {0x0080, 0x00FF}, "LatinExtended-A": {0x0100, 0x017F}, "LatinExtended-B": {0x0180, 0x024F}, "Greek": {0x0370, 0x03FF}, "Cyrillic": {0x0400, 0x04FF}}
+			v := w.Var("parse", "patternReplacements")
+			init, ip := w.VarInit(v)
+			lv := evalLit(ip, init)
+			if len(lv.KVs) == 0 {
+				panic(undecided{"parse.patternReplacements is not a keyed literal"})
+			}
+			re := regexp.MustCompile(`^\[\\x\{([0-9A-Fa-f]+)\}-\\x\{([0-9A-Fa-f]+)\}\]$`)
+			for _, kv := range lv.KVs {
+				if kv.Key.Kind() != constant.String || kv.Val.Const == nil || kv.Val.Const.Kind() != constant.String {
+					panic(undecided{"parse.patternReplacements: an entry that is not string → string"})
+				}
+				k, val := constant.StringVal(kv.Key), constant.StringVal(kv.Val.Const)
+				name := strings.TrimSuffix(strings.TrimPrefix(k, `\p{Is`), "}")
+				want, known := blocks[name]
+				m := re.FindStringSubmatch(val)
+				good := false
+				if known && m != nil {
+					lo, _ := strconv.ParseInt(m[1], 16, 64)
+					hi, _ := strconv.ParseInt(m[2], 16, 64)
+					good = lo == want[0] && hi == want[1]
+				}
+				r.Check(good, "R16.20", "patternReplacements["+k+"]", kv.Val.Node.Pos(), val, fmt.Sprintf("the block escape %s is translated to %s; XSD defines the block as U+%04X..U+%04X (or the block is not in the checker's table): strings with characters outside the block satisfy the pattern", k, val, want[0], want[1]))
+			}
+		})
 		r.Rule("R16.19", "identityref values are named relative to the module the leaf is used in: the prefix stripped is the module name of the configuration node, and BuildBaseType hands that node on unchanged when it follows a typedef", 2)
 		r.guard("R16.19", func() { r8IdentityNamesRelativeToUser(w, r, "R16.19") })
 		r.Rule("R16.18", "a derived string type keeps the patterns of its base: every list getPatterns returns is the base's list (or a copy holding all of it) with the own patterns appended", 1)
 		r.guard("R16.18", func() { r7PatternsInherited(w, r, "R16.18") })
 	case "C17":
+		r.Rule("R17.15", "a value is accepted by a range only if some part accepts it: in integer.Validate and uinteger.Validate the loop over the range parts is left before exhaustion only when the part just asked returned no error", 2)
+		r.guard("R17.15", func() { r8RangeLoopLeavesOnAcceptance(w, r, "R17.15") })
+		r.Rule("R17.14", "the lexical check of a decimal64 value is unconditional: validateDecimal64String is reached whenever the value parsed as a number — no form of the token (no '.', exponent, NaN) bypasses it", 1)
+		r.guard("R17.14", func() {
+			vds := w.SSAFunc(w.Func("schema", "validateDecimal64String"))
+			root := w.SSAFunc(w.Method("schema", "decimal64", "Validate"))
+			if vds == nil || root == nil {
+				panic(undecided{"schema.validateDecimal64String / decimal64.Validate"})
+			}
+			sym := NewSym(w)
+			sym.Expand = false
+			n, why := 0, ""
+			for _, g := range bodiesDeep(root, 1) {
+				if g.Pkg != root.Pkg {
+					continue
+				}
+				for _, b := range g.Blocks {
+					for _, in := range b.Instrs {
+						c, ok := in.(*ssa.Call)
+						if !ok || c.Call.StaticCallee() != vds {
+							continue
+						}
+						n++
+						sawParse := false
+						msg := pcCompare(sym.PathCond(g.Blocks[0], b, nil), func(a *pcAtom) string {
+							if a.op == token.EQL && a.x != nil && a.y != nil {
+								for _, side := range []ssa.Value{a.x, a.y} {
+									if ex, isEx := side.(*ssa.Extract); isEx {
+										if pc, isC := ex.Tuple.(*ssa.Call); isC && pc.Call.StaticCallee() != nil && pc.Call.StaticCallee().String() == "strconv.ParseFloat" {
+											sawParse = true
+											return "parsed"
+										}
+									}
+								}
+							}
+							return ""
+						}, func(env map[string]bool) bool { return env["parsed"] || !sawParse })
+						if msg != "" {
+							why = "the lexical check depends on more than the number having parsed (" + msg + ")"
+						}
+					}
+				}
+			}
+			if n == 0 {
+				why = "validateDecimal64String is not called"
+			}
+			r.Check(why == "", "R17.14", "decimal64.Validate always checks the lexical form", root.Pos(), "validateDecimal64String reached iff ParseFloat succeeded", why+": tokens ParseFloat understands but that are no decimal64 values (NaN, 1e2, 0x1p4) are accepted after a decimal64 leaf name or as a list key")
+		})
 		r.Rule("R17.12", "the key token of a list entry is checked against the first key of the key statement: NewList stores the key names as given, in the order of the key statement", 1)
 		r.guard("R17.12", func() {
 			r7FieldStoredAsGiven(w, r, "R17.12", "schema", "NewList", "list", "keys", "keys", "the order of the keys follows the declaration order of the leaves, and the token after the list name is validated against the wrong key's type")
@@ -1739,4 +1867,70 @@ func r8IdentityNamesRelativeToUser(w *World, r *Report, rule string) {
 		}
 	}
 	r.Check(n > 0 && !bad, rule, "BuildBaseType descends into a typedef with its own configuration node", bbt.Pos(), "BuildType(cfgNode, …)", "the typedef's type is built for another node than the one the type is used at: an identityref reached through a typedef of another module gets its values named relative to the typedef's module")
+}
+
+// r8RangeLoopLeavesOnAcceptance (R17.15): in the Validate methods of the integer
+// types the loop over the range parts is left before exhaustion only when the
+// part just asked accepted the value.
+func r8RangeLoopLeavesOnAcceptance(w *World, r *Report, rule string) {
+	for _, typ := range []string{"integer", "uinteger"} {
+		f := w.SSAFunc(w.Method("schema", typ, "Validate"))
+		if f == nil {
+			panic(undecided{"schema." + typ + ".Validate"})
+		}
+		sym := NewSym(w)
+		sym.Expand = false
+		n, why := 0, ""
+		for _, l := range ssaLoops(f) {
+			body := l.body()
+			var asked []*ssa.Call
+			for b := range body {
+				for _, in := range b.Instrs {
+					if c, ok := in.(*ssa.Call); ok {
+						name := ""
+						if c.Call.IsInvoke() {
+							name = nm(c.Call.Method)
+						} else if g := c.Call.StaticCallee(); g != nil {
+							name = g.Name()
+						}
+						if name == "Validate" {
+							asked = append(asked, c)
+						}
+					}
+				}
+			}
+			if len(asked) == 0 {
+				continue
+			}
+			for b := range body {
+				if b == l.Header {
+					continue
+				}
+				for _, s := range b.Succs {
+					if body[s] {
+						continue
+					}
+					n++
+					cond := pcAndF(sym.PathCond(l.Header, b, nil), sym.edgeCond(b, s, nil))
+					msg := pcImplies(cond, func(a *pcAtom) string {
+						if a.op == token.EQL && a.x != nil && a.y != nil {
+							for _, c := range asked {
+								if (a.x == ssa.Value(c) && isNilConst(a.y)) || (a.y == ssa.Value(c) && isNilConst(a.x)) {
+									return "accepted"
+								}
+							}
+						}
+						return ""
+					}, func(env map[string]bool) bool { return env["accepted"] })
+					if msg != "" {
+						why = "the loop over the range parts is left in mid-course without the part having accepted the value (" + msg + ")"
+					}
+				}
+			}
+		}
+		if n == 0 {
+			why = "no loop over the range parts with an early exit found"
+		}
+		r.Check(why == "", rule, typ+".Validate leaves the range loop only on acceptance", f.Pos(), "early exit ⇒ r.Validate(v) == nil", why+": a value no part accepted (e.g. one below the first range) leaves the loop with no error and is accepted")
+	}
 }
